@@ -160,6 +160,8 @@ def judge(res, js, line, real, sc):
 
 
 def explore(res, tier, seed, model_ok=True):
+    import gencheck   # differential test of the translated code (Generated/Code.lean) against the original Python
+    gencheck.run(res, 'C15', tier, seed, model_ok)
     rng = random.Random(seed)
     n = 500 if tier == 'quick' else 10000
     res.rule = ('%d histories on the virtual clock: poll in {1,2,3,5}, ping_rate in {0,1,2,3,4,7,10}, ping_timeout in {None,2,3,5,8,12}, close_timeout in {None,1,3,4,9,30}; 3-30 loop cycles with timeouts and arrivals (Pong, data, Ping) at 0..poll, '
